@@ -89,7 +89,13 @@ def run(it, st, fr, inv, itv):
             p.assume(inv_at(k))
             if str_seq is not None:
                 from .strings import mk_str
-                fr.locals[tgt] = mk_str(z3.SubString(str_seq.e, k.e, 1))
+                # the character of an arbitrary iteration: any one-character
+                # string (its link to position k of the sequence is dropped -
+                # an over-approximation that keeps string terms out of the
+                # rest of the path)
+                ch = z3.String('%s!c%d' % (tgt, next(p.fresh)))
+                p.fact(z3.Length(ch) == 1)
+                fr.locals[tgt] = mk_str(ch)
             else:
                 fr.locals[tgt] = k
         else:
